@@ -2,6 +2,7 @@ package main
 
 import (
 	"flag"
+	"runtime/pprof"
 	"fmt"
 	"os"
 	"strings"
@@ -14,6 +15,11 @@ func main() {
 	if len(os.Args) < 2 {
 		fmt.Fprintln(os.Stderr, "usage: vx run|check|selfcheck|replay ...")
 		os.Exit(2)
+	}
+	if pf := os.Getenv("VX_PROFILE"); pf != "" {
+		f, _ := os.Create(pf)
+		pprof.StartCPUProfile(f)
+		defer pprof.StopCPUProfile()
 	}
 	switch os.Args[1] {
 	case "run":
@@ -81,7 +87,7 @@ func cmdRun(argv []string) {
 	}
 	in.solver = s
 	defer s.Close()
-	res := in.RunConfig(cfg, 1<<40, time.Time{})
+	res := in.RunConfig(cfg, 1<<40, time.Now().Add(45*time.Second))
 	printResult(res, *verbose)
 }
 
